@@ -12,6 +12,7 @@ RULE = ('structured CSR matrices (n<=8; unsorted rows, empty rows, missing / zer
         'theta=0; contract oracle on evolution/energy/distance/affinity/algebraic_distance and BSR inputs. '
         'A case is non-trivial when the matrix has an off-diagonal entry; distinct = distinct '
         '(kind, theta, matrix).')
+THOROUGH_ROUNDS = 2
 TRUSTED = ['SciPy csr_array construction, eliminate_zeros, sparsetools csr_scale_rows (modelled as a*x[i])',
            'NumPy abs and 1.0/x on float64 (single IEEE operations)']
 PARTIAL = ['evolution / energy / distance / affinity / algebraic-distance measures: only the common '
